@@ -5,7 +5,7 @@ import common, zoo as zoolib, filelevel, workloads, shapes
 from common import Pair, proof_stage, rebuild_tools, build_pqh, build_zoo, Lock, TRUSTED_BASE
 
 MODULE = "PQ.Props.C05"
-THEOREMS = []
+THEOREMS = ["PQ.C05.model_valid_for_every_shape", "PQ.C05.striping_lossless_for_every_shape", "PQ.C02.file_valid", "PQ.schema_valid", "PQ.parseFile_runWriter"]
 
 
 def shape_cases(chk, z, thorough):
